@@ -83,6 +83,7 @@ class C11(Prop):
                 "C11_converter_order", "C11_converter_progress", "C11_converter_completion", "C11_converter_await_never_blocks",
                 "C11_refine_step", "C11_refines", "C11_buffers_are_c12", "C11_splice_concrete",
                 "C11_lanes_progress", "C11_lanes_completion", "C11_lanes_waits",
+                "C11_seq_lanes_refines", "C11_seq_lanes_progress", "C11_seq_lanes_completion",
                 "C11_zoom_levels_splice", "C11_zoom_assembly", "C11_zoom_assembly_bigwig", "C11_zoom_progress", "C11_zoom_completion"]
     RULE = ("inputs: 1-10 chromosomes (names whose input, lexicographic and id order differ), per chromosome up to 40 sorted items, "
             "items_per_slot mostly 1/2/3/7 so that a chromosome has many sections, block sizes 2..256, zoom modes auto/small/manual/none, "
